@@ -1,7 +1,10 @@
 import BreezyVerif.Lemmas.C26
 /-!
-C26 — the global invariant over all interleavings, any number of lockers, at most
-one locker `b` that ever breaks locks (user `break_lock` or `locks.steal_dead`).
+C26 — the global invariant over all interleavings, any number of lockers and any
+number of breakers (user `break_lock` or `locks.steal_dead`), as long as no two
+`force_break`s are between their examination of the lock and its removal at the
+same time (`Excl`).  One breaker `b` (`Who b`) is the special case used by the
+single-breaker theorems.
 -/
 namespace BreezyVerif.C26
 
@@ -10,11 +13,21 @@ def Ev.breaksOnlyBy (b : Nat) : Ev → Bool
   | .start i .brk => i == b
   | _ => true
 
-structure Inv (b : Nat) (s : Sys) : Prop where
+/-- the break window of a `force_break x`: from the decision to break `x` (before its own `peek`) until it
+has renamed `held/` away -/
+def Pc.inWindow (p : Pc) : Bool := p.expects.isSome
+
+/-- at most one locker is inside a break window -/
+def Excl (s : Sys) : Prop :=
+  ∀ i j, (s.lk i).pc.inWindow = true → (s.lk j).pc.inWindow = true → i = j
+
+/-- only locker `b` is ever inside `break_lock` / `force_break` / `force_break_corrupt` -/
+def Who (b : Nat) (s : Sys) : Prop := ∀ i, (s.lk i).pc.breaky = true → i = b
+
+structure Inv (s : Sys) : Prop where
   /-- a locker that believes it holds the lock owns `held/` — unless it crashed and a break happened -/
   claim : ∀ i, s.brokeAlive = false → (s.lk i).claims = true →
             ownerOf s.held = some i ∨ (s.crashed i = true ∧ 0 < s.breaks)
-  who : ∀ i, (s.lk i).pc.breaky = true → i = b
   dec : ∀ i, (s.lk i).pc.decided = true → 0 < s.breaks
   /-- between the examination of a lock and its removal the lock does not change -/
   exp : ∀ i x, s.brokeAlive = false → (s.lk i).pc.expects = some x →
@@ -26,14 +39,29 @@ structure Inv (b : Nat) (s : Sys) : Prop where
 
 theorem ownerOf_okDir (x : Nonce) : ownerOf (okDir x) = some x.owner := rfl
 
-theorem Inv.init (b : Nat) (cfg : Nat → Cfg) (h : Option Dir) : Inv b (Sys.init cfg h) := by
+theorem Inv.init (cfg : Nat → Cfg) (h : Option Dir) : Inv (Sys.init cfg h) := by
   constructor <;> intros <;> simp_all [Sys.init, Locker.claims, Pc.breaky, Pc.decided, Pc.expects,
     Pc.needsHeld, Pc.hasPend, Pc.corruptBreak]
+
+theorem Who.init (b : Nat) (cfg : Nat → Cfg) (h : Option Dir) : Who b (Sys.init cfg h) := by
+  intro i hi; simp [Sys.init, Pc.breaky] at hi
+
+theorem Who.excl {b : Nat} {s : Sys} (w : Who b s) : Excl s := by
+  intro i j hi hj
+  have hi' : (s.lk i).pc.breaky = true := by
+    cases h : (s.lk i).pc.expects with
+    | none => simp [Pc.inWindow, h] at hi
+    | some x => exact breaky_of_expects h
+  have hj' : (s.lk j).pc.breaky = true := by
+    cases h : (s.lk j).pc.expects with
+    | none => simp [Pc.inWindow, h] at hj
+    | some x => exact breaky_of_expects h
+  rw [w i hi', w j hj']
 
 @[simp] theorem step_cfg (s : Sys) (e : Ev) : (s.step e).cfg = s.cfg := by
   cases e <;> simp [Sys.step] <;> split <;> (try split) <;> rfl
 
-theorem Inv.crash {b : Nat} {s : Sys} (inv : Inv b s) (i : Nat) : Inv b (s.step (.crash i)) := by
+theorem Inv.crash {s : Sys} (inv : Inv s) (i : Nat) : Inv (s.step (.crash i)) := by
   have hc : ∀ j, s.crashed j = true → upd s.crashed i true j = true := by
     intro j h; unfold upd; split <;> simp_all
   constructor <;> simp only [Sys.step]
@@ -41,7 +69,6 @@ theorem Inv.crash {b : Nat} {s : Sys} (inv : Inv b s) (i : Nat) : Inv b (s.step 
     rcases inv.claim j hb hcl with h | ⟨h1, h2⟩
     · exact Or.inl h
     · exact Or.inr ⟨hc j h1, h2⟩
-  · exact inv.who
   · exact inv.dec
   · intro j x hb he
     have := inv.exp j x hb he
@@ -51,8 +78,8 @@ theorem Inv.crash {b : Nat} {s : Sys} (inv : Inv b s) (i : Nat) : Inv b (s.step 
   · exact inv.nothold
   · exact inv.corr
 
-theorem Inv.fault {b : Nat} {s : Sys} (inv : Inv b s) (i : Nat) (k : FaultKind) :
-    Inv b (s.step (.fault i k)) := by
+theorem Inv.fault {s : Sys} (inv : Inv s) (i : Nat) (k : FaultKind) :
+    Inv (s.step (.fault i k)) := by
   simp only [Sys.step]
   split
   · exact inv
@@ -65,10 +92,6 @@ theorem Inv.fault {b : Nat} {s : Sys} (inv : Inv b s) (i : Nat) (k : FaultKind) 
         exact inv.claim j hb (lfault_claims _ _ hcl)
       · simp only [hlk j hj] at hcl
         exact inv.claim j hb hcl
-    · intro j hbr
-      by_cases hj : j = i
-      · subst hj; simp [lfault_breaky] at hbr
-      · simp only [hlk j hj] at hbr; exact inv.who j hbr
     · intro j hd
       by_cases hj : j = i
       · subst hj
@@ -103,8 +126,7 @@ theorem Inv.fault {b : Nat} {s : Sys} (inv : Inv b s) (i : Nat) (k : FaultKind) 
         simp [lfault_breaky] at this
       · simp only [hlk j hj] at hc; exact inv.corr j hc
 
-theorem Inv.start {b : Nat} {s : Sys} (inv : Inv b s) (i : Nat) (op : Op)
-    (hev : (Ev.start i op).breaksOnlyBy b = true) : Inv b (s.step (.start i op)) := by
+theorem Inv.start {s : Sys} (inv : Inv s) (i : Nat) (op : Op) : Inv (s.step (.start i op)) := by
   simp only [Sys.step]
   split
   · exact inv
@@ -119,14 +141,6 @@ theorem Inv.start {b : Nat} {s : Sys} (inv : Inv b s) (i : Nat) (op : Op)
           exact inv.claim j hb (start_claims _ _ hidle hcl)
         · simp only [hlk j hj] at hcl
           exact inv.claim j hb hcl
-      · intro j hbr
-        by_cases hj : j = i
-        · subst hj
-          simp only [upd_same] at hbr
-          have := (start_breaky _ _ hbr).1
-          subst this
-          simpa [Ev.breaksOnlyBy] using hev
-        · simp only [hlk j hj] at hbr; exact inv.who j hbr
       · intro j hd
         by_cases hj : j = i
         · subst hj; simp [start_decided] at hd
@@ -169,8 +183,7 @@ theorem decisionAlive_false {crashed : Nat → Bool} {x : Nonce} :
     decisionAlive crashed (some (some x)) = false → crashed x.owner = true := by
   simp [decisionAlive]
 
-theorem Inv.stepStep {b : Nat} {s : Sys} (inv : Inv b s) (i : Nat)
-    (hsteal : ∀ j, (s.cfg j).steal = true → j = b) : Inv b (s.step (.step i)) := by
+theorem Inv.stepStep {s : Sys} (inv : Inv s) (i : Nat) (hex : Excl s) : Inv (s.step (.step i)) := by
   simp only [Sys.step]
   split
   · exact inv
@@ -217,17 +230,6 @@ theorem Inv.stepStep {b : Nat} {s : Sys} (inv : Inv b s) (i : Nat)
           · have := inv.corr i (by simp [h0, Pc.corruptBreak])
             simp [this] at hb
         · right; exact ⟨h1, Nat.lt_of_lt_of_le h2 (Nat.le_add_right _ _)⟩
-    · -- who
-      intro j hbr
-      by_cases hj : j = i
-      · subst hj
-        simp only [upd_same] at hbr
-        have := lstep_breaky j s.cfg s.crashed (s.lk j) s.held
-        rw [hr] at this
-        rcases this hbr with h | h
-        · exact inv.who j h
-        · exact hsteal j h
-      · simp only [hlk j hj] at hbr; exact inv.who j hbr
     · -- dec
       intro j hd
       by_cases hj : j = i
@@ -255,7 +257,7 @@ theorem Inv.stepStep {b : Nat} {s : Sys} (inv : Inv b s) (i : Nat)
           exact ⟨by rw [h3]; exact this.1, this.2⟩
       · simp only [hlk j hj] at he
         have hx := inv.exp j x hb.1 he
-        have hjb : j = b := inv.who j (breaky_of_expects he)
+        have hjw : (s.lk j).pc.inWindow = true := by simp [Pc.inWindow, he]
         refine ⟨?_, hx.2⟩
         rcases hheld with h0 | ⟨_, h0, _⟩ | ⟨h0, _⟩ | ⟨⟨y, ret, h0⟩, _⟩ | ⟨⟨t, h0⟩, _⟩
         · rw [h0]; exact hx.1
@@ -265,10 +267,11 @@ theorem Inv.stepStep {b : Nat} {s : Sys} (inv : Inv b s) (i : Nat)
           have : x.owner = i := by simpa using hi
           rw [this, hcr] at hx
           simp at hx
-        · have := inv.who i (by simp [h0, Pc.breaky])
-          exact absurd (hjb.trans this.symm) hj
-        · have := inv.who i (by simp [h0, Pc.breaky])
-          exact absurd (hjb.trans this.symm) hj
+        · -- another `force_break` renames `held/` away inside our window: excluded by `Excl`
+          exact absurd (hex j i hjw (by simp [h0, Pc.inWindow, Pc.expects])) hj
+        · -- `force_break_corrupt`: its decision was against an unknown holder
+          have := inv.corr i (by simp [h0, Pc.corruptBreak])
+          simp [this] at hb
     · -- need
       intro j hn
       by_cases hj : j = i
@@ -306,11 +309,10 @@ theorem Inv.stepStep {b : Nat} {s : Sys} (inv : Inv b s) (i : Nat)
       · simp only [hlk j hj] at hc
         simp [inv.corr j hc]
 
-theorem Inv.step {b : Nat} {s : Sys} (inv : Inv b s) (e : Ev) (hev : e.breaksOnlyBy b = true)
-    (hsteal : ∀ j, (s.cfg j).steal = true → j = b) : Inv b (s.step e) := by
+theorem Inv.step {s : Sys} (inv : Inv s) (e : Ev) (hex : Excl s) : Inv (s.step e) := by
   cases e with
-  | start i op => exact inv.start i op hev
-  | step i => exact inv.stepStep i hsteal
+  | start i op => exact inv.start i op
+  | step i => exact inv.stepStep i hex
   | fault i k => exact inv.fault i k
   | crash i => exact inv.crash i
 
@@ -319,16 +321,76 @@ theorem run_cfg (s : Sys) (evs : List Ev) : (s.run evs).cfg = s.cfg := by
   | nil => rfl
   | cons e es ih => simp only [Sys.run, List.foldl_cons] at ih ⊢; rw [ih]; simp
 
-theorem Inv.run {b : Nat} {s : Sys} (inv : Inv b s) (evs : List Ev)
-    (hev : ∀ e ∈ evs, e.breaksOnlyBy b = true)
-    (hsteal : ∀ j, (s.cfg j).steal = true → j = b) : Inv b (s.run evs) := by
+theorem run_cons (s : Sys) (e : Ev) (es : List Ev) : s.run (e :: es) = (s.step e).run es := rfl
+
+/-- the invariant holds along every run all of whose prefixes have non-overlapping break windows -/
+theorem Inv.run {s : Sys} (inv : Inv s) (evs : List Ev) (hex : ∀ k, Excl (s.run (evs.take k))) :
+    Inv (s.run evs) := by
   induction evs generalizing s with
   | nil => exact inv
   | cons e es ih =>
-    simp only [Sys.run, List.foldl_cons]
-    apply ih (inv.step e (hev e (by simp)) hsteal)
+    rw [run_cons]
+    apply ih (inv.step e (by simpa [Sys.run] using hex 0))
+    intro k
+    have := hex (k + 1)
+    simpa [run_cons] using this
+
+/-! ### one breaker -/
+
+theorem Who.step {b : Nat} {s : Sys} (w : Who b s) (e : Ev) (hev : e.breaksOnlyBy b = true)
+    (hsteal : ∀ j, (s.cfg j).steal = true → j = b) : Who b (s.step e) := by
+  cases e with
+  | crash c => exact w
+  | fault c k =>
+    simp only [Sys.step]; split
+    · exact w
+    · intro j hbr
+      by_cases hj : j = c
+      · subst hj; simp [lfault_breaky] at hbr
+      · simp only [upd_other _ _ hj] at hbr; exact w j hbr
+  | start c op =>
+    simp only [Sys.step]; split
+    · exact w
+    · split
+      · intro j hbr
+        by_cases hj : j = c
+        · subst hj
+          simp only [upd_same] at hbr
+          have := (start_breaky _ _ hbr).1
+          subst this
+          simpa [Ev.breaksOnlyBy] using hev
+        · simp only [upd_other _ _ hj] at hbr; exact w j hbr
+      · exact w
+  | step c =>
+    simp only [Sys.step]; split
+    · exact w
+    · intro j hbr
+      by_cases hj : j = c
+      · subst hj
+        simp only [upd_same] at hbr
+        rcases lstep_breaky j s.cfg s.crashed (s.lk j) s.held hbr with h | h
+        · exact w j h
+        · exact hsteal j h
+      · simp only [upd_other _ _ hj] at hbr; exact w j hbr
+
+theorem Who.run {b : Nat} {s : Sys} (w : Who b s) (evs : List Ev)
+    (hev : ∀ e ∈ evs, e.breaksOnlyBy b = true)
+    (hsteal : ∀ j, (s.cfg j).steal = true → j = b) : Who b (s.run evs) := by
+  induction evs generalizing s with
+  | nil => exact w
+  | cons e es ih =>
+    rw [run_cons]
+    apply ih (w.step e (hev e (by simp)) hsteal)
     · intro e' he'; exact hev e' (by simp [he'])
     · simpa using hsteal
+
+/-- with a single breaker the windows trivially never overlap -/
+theorem Inv.run_single {b : Nat} {s : Sys} (inv : Inv s) (w : Who b s) (evs : List Ev)
+    (hev : ∀ e ∈ evs, e.breaksOnlyBy b = true)
+    (hsteal : ∀ j, (s.cfg j).steal = true → j = b) : Inv (s.run evs) := by
+  apply inv.run evs
+  intro k
+  exact (w.run (evs.take k) (fun e he => hev e (List.mem_of_mem_take he)) hsteal).excl
 
 /-! ### runs in which nobody breaks a lock -/
 
